@@ -26,7 +26,7 @@ WALL_LIMIT = {"quick": 1200, "thorough": 5 * 3600}
 PROBES = ["permutation_checked", "onsets_unordered_warning_expected", "handler_reused", "delay_group", "duration_group",
           "temporal_marker", "cell_with_defect", "row_equality_checked", "row_superset_checked", "na_cells", "no_onset_column",
           "spreadsheet_input_no_header", "tied_or_nonnumeric_onsets", "unit_spelling_variety", "cross_column_repeat",
-          "rejected_unit_spelling_kept_as_defect"]
+          "rejected_unit_spelling_kept_as_defect", "delay_lands_on_another_timepoint"]
 RULE = ("Each run generates an events table (onset column with distinct numeric values; ties / non-numeric in a sub-batch; "
         "1-3 HED-bearing columns: HED column, categorical, value) whose cells are valid or carry one seeded defect (unknown tag, "
         "unbalanced parenthesis, empty element, repeated tag), with Delay/Duration groups in every unit spelling string "
@@ -142,8 +142,14 @@ def generate(run_index, seed, tier):
                 row[c] = "%g" % t
             elif c in ("HED", "tags", "more"):
                 x = g.random()
-                if x < 0.45:
+                if x < 0.42:
                     row[c] = _valid_cell(g)
+                elif x < 0.45:
+                    row[c] = g.pick([" ", "  ", " "])                 # a cell of blanks only
+                elif x < 0.48 and has_onset:
+                    # two Delay groups in one cell; the first holds a problem only the full-string pass finds
+                    t1 = g.pick(PLAIN)
+                    row[c] = "(Delay/1 s, (%s, %s)), (Delay/2 s, (%s))" % (t1, t1 if g.chance(0.6) else g.pick(PLAIN), g.pick(PLAIN))
                 elif x < 0.6:
                     row[c] = "n/a"
                 elif x < 0.75:
@@ -407,7 +413,15 @@ def _check_rows(W, sc, inp, issues, header_adj, viol, probe):
     except Exception as e:  # noqa
         viol("never-raises", "series_a raised %s: %s" % (type(e).__name__, str(e)[:200]), "series_a-raises")
         return
+    if len(texts) != len(sc["rows"]):
+        probe("reader_skipped_blank_lines")       # pandas drops lines made of blanks only: row bookkeeping not judged
+        return
     distinct = "onset" in cols and not sc.get("ties")
+    if distinct and _delay_collision(W, sc, texts):
+        # a Delay-shifted group lands on another row's (effective) time: the validator merges them before the
+        # full-string checks (the statement's "temporal issues"), so only the superset rule applies to this file
+        distinct = False
+        probe("delay_lands_on_another_timepoint")
     by_row = {}
     n_rows = len(sc["rows"])
     for i in issues:
@@ -462,6 +476,30 @@ def _check_rows(W, sc, inp, issues, header_adj, viol, probe):
                  "row cells %s" % (label, txt, got, want, dict(zip(cols, sc["rows"][ri]))),
                  "row-codes-differ-file-%s-string-%s" % ("+".join(sorted(set(got))) or "none", "+".join(sorted(set(want))) or "none"))
             return
+
+
+def _delay_collision(W, sc, texts):
+    oi = sc["columns"].index("onset")
+    times = []
+    for r, txt in zip(sc["rows"], texts):
+        try:
+            t0 = float(r[oi])
+        except ValueError:
+            return True
+        times.append(t0)
+        if "delay/" in txt.lower():
+            try:
+                hs = W["HedString"](txt, W["schema"])
+                for tag in hs.get_all_tags():
+                    if tag.short_base_tag == "Delay":
+                        v = tag.value_as_default_unit()
+                        if v is None:
+                            return True
+                        times.append(t0 + v)
+            except Exception:  # noqa - unparsable cell: the superset rule applies anyway
+                return True
+    times.sort()
+    return any(abs(a - b) < 1e-6 for a, b in zip(times, times[1:]))
 
 
 def _result(sc, violations, probes, trace, nontrivial):
